@@ -668,7 +668,9 @@ def _init_timer_rig():
         rig.post("t0_pause1000")
         rig.post("t0_pause")
         _TRIG["legacy"] = "pause" in t.delay.delays
-        rig.post("stop_m1")
+        # the mode stays active for the life of the worker (restarting it per case makes Timer.event_keys grow:
+        # device_removed_from_mode never empties it); every case first brings its timer back to the initial state
+        rig.post("t0_stop")
         rig.advance(2)
 
 
@@ -734,8 +736,6 @@ def run_timer(case):
         finally:
             S.busy = False
 
-    timer._timer_tick = tick_w
-    timer.start = start_w
     keys = []
 
     def mk(kind):
@@ -748,14 +748,22 @@ def run_timer(case):
             S.events.append(e)
         return h
 
-    for kind in T_KINDS:
-        keys.append(m.events.add_handler("timer_%s_%s" % (name, kind), mk(kind)))
     try:
-        rig.post("start_m1")
-        rig.advance(0.125)
         if not m.modes["m1"].active:
-            return {"harness_error": "mode did not start"}
-        t0box[0] = _align(rig, loop)
+            return {"harness_error": "mode m1 is not active"}
+        # initial state: stopped, configured interval, start value; the system timer that reset creates while the
+        # timer is not running removes itself at its first expiry, before the case begins
+        for a in ("stop", "resetival", "reset", "stop"):
+            rig.post("%s_%s" % (name, a))
+        t0 = _align(rig, loop)
+        if timer.running or timer.timer is not None or timer.delay.delays or timer.ticks != TIMERS[case["timer"]][1]:
+            return {"harness_error": "timer not in its initial state: %r %r %r %r" %
+                                     (timer.running, timer.timer, list(timer.delay.delays), timer.ticks)}
+        timer._timer_tick = tick_w
+        timer.start = start_w
+        for kind in T_KINDS:
+            keys.append(m.events.add_handler("timer_%s_%s" % (name, kind), mk(kind)))
+        t0box[0] = t0
         for t, a in case["ops"] + [[case["end"], "nop"]]:
             d = t0box[0] + t / 1e6 - loop.time()
             rig.advance(d if d > 0 else 0)
@@ -774,10 +782,10 @@ def run_timer(case):
         t0box[0] = None
         for k in keys:
             m.events.remove_handler_by_key(k)
-        rig.post("stop_m1")
-        rig.advance(0.125)
-        del timer._timer_tick
-        del timer.start
+        for attr in ("_timer_tick", "start"):
+            if attr in timer.__dict__:
+                delattr(timer, attr)
+        rig.post("%s_stop" % name)
     out = {"events": S.events, "steps": S.steps, "legacy": bool(_TRIG["legacy"])}
     if rig.exception():
         out["exc"] = repr(rig.exception())[:300]
